@@ -25,6 +25,9 @@
 (*   lost       reported delivered, the owner has the local channel, nothing*)
 (*              arrived (if the owner's consumer is stalled - back-pressure *)
 (*              - judged when it is released: Unstall / Freeze "missing")   *)
+(*   dropped    an ack that the forwarder's send accepted was read by an    *)
+(*              owner without a local ack channel and the stream goes on    *)
+(*              (neither handed over nor answered by the stream ending)     *)
 (* after Reconcile(i)                                                       *)
 (*   extra      i's tables hold a receiver / sender that is not desired for *)
 (*              that peer by i's own local shards x remote view             *)
@@ -93,6 +96,10 @@ RouteBad(e) ==
       arrived == \E a \in Range(e.arr) : a[6] = e.id /\ a[2] # "wm"
   IN (IF e.owner # "" /\ open /\ ~e.result THEN {<<l, "unrouted", e.t, e.s>>} ELSE {})
      \cup (IF e.result /\ e.ownerHas /\ ~e.stalled /\ ~arrived THEN {<<l, "lost", e.t, e.s>>} ELSE {})
+     \* an acknowledgement the forwarder's send accepted reached an owner WITHOUT a local ack channel: it is not handed over, so the
+     \* owner has to answer by ending the stream (that is how the forwarding side learns of it); read and the stream goes on = dropped silently
+     \cup (IF e.a = "RouteAck" /\ e.result /\ ~e.ownerHas /\ "received" \in DOMAIN e /\ e.received /\ ~arrived /\ open
+           THEN {<<l, "dropped", e.t, e.s>>} ELSE {})
 ExtraAt(e, i) == {<<l, "extra", x[3], x[4]>> : x \in {y \in (RecvTab(e) \ DesR(e)) \cup (SendTab(e) \ DesS(e)) : y[1] = i}}
 
 OnStep(e) ==
